@@ -1399,7 +1399,17 @@ class _Flattener:
         var_attrs = self.attrs(var)
         for name in referencing_attributes.intersection(var_attrs):
             # Parse attribute value
-            parsed_attribute = parse_attribute(name, var_attrs[name])
+            try:
+                parsed_attribute = parse_attribute(name, var_attrs[name])
+            except AttributeParsingException as error:
+                if self._strict:
+                    raise
+
+                # Leave a malformed attribute as it is, for the
+                # software that reads the flattened dataset to deal
+                # with.
+                warnings.warn(str(error))
+                continue
 
             # Resolved references in parsed as required by attribute
             # properties
@@ -1448,7 +1458,15 @@ class _Flattener:
         for name in referencing_attributes.intersection(var_attrs):
             # Parse attribute value
             value = var_attrs[name]
-            parsed_attribute = parse_attribute(name, value)
+            try:
+                parsed_attribute = parse_attribute(name, value)
+            except AttributeParsingException:
+                if self._strict:
+                    raise
+
+                # A malformed attribute is left as it is (the warning
+                # has been given by `resolve_references`)
+                continue
 
             adapted_parsed_attr = []
 
